@@ -30,7 +30,7 @@ var c34Assumptions = []string{
 	"dolt_checkout(table) and dolt_reset(table) are only issued for tables present in HEAD or staged (what they do to an untracked table is not documented: today checkout deletes it, reset fails)",
 	"when a stash pop has to merge a table that both the stash and the working set changed and the change involves a schema change, an add/add or a delete/modify, the model does not predict success or failure: the step must be atomic (either error and no change, or success) and the model is re-read from dolt (class pop_uncertain)",
 	"a --move checkout where both branches have uncommitted changes that are equal in the model is not generated as an oracle case (class move_both_dirty_equal: outcome adopted)",
-	"at most 9 stashes are pushed per case: stash keys are decimal strings in a lexicographically ordered map, so lists whose keys reach 10 are outside what this check asserts",
+	"while finding C34-stash-list-ten-entries is open at most 9 stashes are pushed per case and the 4% of cases that would build a list of 10-13 entries are skipped (counted as excluded_known): stash keys are decimal strings in a lexicographically ordered map; once it is fixed up to 16 pushes and the long lists are generated",
 	"after stash push+pop the staged root is the documented one (HEAD plus the tables that were staged as new, taken with their working contents), not the pre-push staged root: dolt's stash stores one root, like git stash pop without --index",
 }
 
@@ -38,6 +38,7 @@ var c34Assumptions = []string{
 const (
 	c34FindMoveDrop = "C34-move-checkout-loses-table-drop"
 	c34FindStashU   = "C34-stash-include-untracked-keeps-drop"
+	c34FindStashTen = "C34-stash-list-ten-entries"
 )
 
 // ---------------------------------------------------------------------------------------
@@ -766,6 +767,21 @@ func c34Run(rt *rapid.T, env *c34Env, rec *vh.Recorder, known map[string]int) {
 	pushBoth := false     // a stash was pushed over a table with staged+unstaged changes
 	forcePop := ""        // stash name to pop in the next step (drawn after a successful push)
 	moveRefused, moveCarried := false, false
+	if rapid.IntRange(0, 24).Draw(rt, "long_stash_list") == 0 {
+		// a stash list of 10-13 entries under one name (keys of two digits)
+		if vh.OpenFinding("C34", c34FindStashTen) {
+			rec.Excluded(1)
+			classes["known:"+c34FindStashTen] = true
+		} else if len(c.m.b().staged) > 0 {
+			n := rapid.IntRange(10, 13).Draw(rt, "long_stash_list.n")
+			for i := 0; i < n; i++ {
+				c.dmlInsert(rapid.SampledFrom(c.m.b().staged.names()).Draw(rt, fmt.Sprintf("long.%d.t", i)), rapid.IntRange(1, 4).Draw(rt, fmt.Sprintf("long.%d.pk", i)))
+				fail, dev := c.m.stashPush("s1", false)
+				c.vc(fmt.Sprintf("long.%d", i), "CALL dolt_stash('push','s1')", fail, dev, known, c34FindStashU)
+			}
+			classes["stash_list_10+"] = true
+		}
+	}
 	forced := map[int]string{}
 	if steered {
 		k := rapid.IntRange(3, nsteps-2).Draw(rt, "steer_move_at")
@@ -853,8 +869,12 @@ func c34Run(rt *rapid.T, env *c34Env, rec *vh.Recorder, known map[string]int) {
 			c.vc(label, fmt.Sprintf("CALL dolt_commit('%s','%s')", flag, label), fail, nil, known, "")
 		case "stash_push":
 			name := rapid.SampledFrom([]string{"s1", "s1", "s1", "s2"}).Draw(rt, label+".name")
-			if c.m.pushes >= 9 {
-				continue // see assumptions: stash keys are decimal strings, lists stay below 10 keys
+			if c.m.pushes >= c34MaxPushes() {
+				if vh.OpenFinding("C34", c34FindStashTen) {
+					c.rec.Excluded(1) // gate of the known finding: no stash key may reach 10
+					classes["known:"+c34FindStashTen] = true
+				}
+				continue
 			}
 			u := rapid.IntRange(0, 3).Draw(rt, label+".untracked") == 0
 			if st0, un0 := c.m.dirty(); len(st0)+len(un0) == 0 && len(c.m.b().staged) > 0 && rapid.IntRange(0, 4).Draw(rt, label+".change_first") > 0 {
@@ -993,6 +1013,16 @@ func c34Run(rt *rapid.T, env *c34Env, rec *vh.Recorder, known map[string]int) {
 	}
 	sort.Strings(cls)
 	rec.Case(strings.Join(c.log, " ; "), nontrivial, cls...)
+}
+
+// c34MaxPushes bounds the pushes of one case. While finding C34-stash-list-ten-entries is open no
+// stash key may reach 10 (keys are decimal strings in a lexicographically ordered map), so the
+// bound is 9; otherwise long lists are part of the domain.
+func c34MaxPushes() int {
+	if vh.OpenFinding("C34", c34FindStashTen) {
+		return 9
+	}
+	return 16
 }
 
 // stashIndex draws the position stash@{k} a pop or drop addresses in list name: the top entry,
@@ -1292,7 +1322,52 @@ func c34Pinned(t *testing.T, env *c34Env) {
 	run("move_drop", append(append([]string{}, base...), "DROP TABLE t2", "CALL dolt_checkout('--move','b1')"),
 		"SHOW TABLES", "t1", c34FindMoveDrop,
 		"DROP TABLE t2 (uncommitted) then dolt_checkout('--move','b1') [= CLI `dolt checkout b1`]: t2 exists again on b1 and on main, the uncommitted drop is silently lost (actions.writeTableHashes skips empty hashes instead of removing the table)")
+	c34PinnedTen(t, env)
 	run("stash_u_drop", append(append([]string{}, base...), "DROP TABLE t2", "CALL dolt_stash('push','s1','--include-untracked')"),
 		"SHOW TABLES", "t1,t2", c34FindStashU,
 		"DROP TABLE t2 then dolt_stash('push',name,'--include-untracked'): the working set still lacks t2 (status: t2 deleted) although stash push documents that the workspace is reverted to HEAD; without the flag t2 is restored (doStashPush overwrites the stashed-table list with the union of staged and working names)")
+}
+
+// c34PinnedTen: twelve pushes under one name, each stashing one new row; dolt_stashes must list
+// twelve entries and popping (after a hard reset) must restore the rows newest first.
+func c34PinnedTen(t *testing.T, env *c34Env) {
+	db := env.srv.NewDBName()
+	env.admin.MustExec(t, "CREATE DATABASE "+db)
+	defer env.admin.Exec("DROP DATABASE " + db)
+	se := env.srv.Session(t, "ten", db)
+	defer se.Close()
+	se.MustExec(t, "CREATE TABLE t (pk INT PRIMARY KEY)")
+	se.MustExec(t, "CALL dolt_commit('-Am','init')")
+	var counts, want []string
+	const n = 12
+	for i := 1; i <= n; i++ {
+		se.MustExec(t, fmt.Sprintf("INSERT INTO t VALUES (%d)", i))
+		se.MustExec(t, "CALL dolt_stash('push','s1')")
+		c, _ := se.Scalar(t, "SELECT COUNT(*) FROM dolt_stashes")
+		counts = append(counts, c)
+		want = append(want, strconv.Itoa(i))
+	}
+	var restored []string
+	for i := 0; i < n; i++ {
+		if err := se.Exec("CALL dolt_stash('pop','s1')"); err != nil {
+			restored = append(restored, "error")
+			break
+		}
+		restored = append(restored, strings.Join(se.MustQuery(t, "SELECT pk FROM t").Sorted(), "+"))
+		se.MustExec(t, "CALL dolt_reset('--hard')")
+	}
+	var wantRestored []string
+	for i := n; i >= 1; i-- {
+		wantRestored = append(wantRestored, strconv.Itoa(i))
+	}
+	if strings.Join(counts, ",") == strings.Join(want, ",") && strings.Join(restored, ",") == strings.Join(wantRestored, ",") {
+		return
+	}
+	msg := fmt.Sprintf("12 x (INSERT one row; dolt_stash('push','s1')): COUNT(*) of dolt_stashes after each push = %v (want 1..12); rows restored by 12 x pop = %v (want %v)", counts, restored, wantRestored)
+	if vh.OpenFinding("C34", c34FindStashTen) {
+		vh.ReportKnown("C34", c34FindStashTen, msg)
+		return
+	}
+	vh.NoteViolation(t.Name(), "", msg)
+	t.Errorf("%s", msg)
 }
